@@ -33,6 +33,8 @@ func replayOne(i int, raw json.RawMessage, seed int64) hx.Result {
 		res = replayAtState(w)
 	case "load":
 		res = replayLoad(w)
+	case "backfill":
+		res = replayBackfill(w)
 	default:
 		panic("c14: unknown kind " + r.Kind)
 	}
@@ -47,7 +49,8 @@ func (w *world) fail(aspect string, want, got interface{}, format string, args .
 	r := w.r
 	aspect = w.tag + aspect
 	key := fmt.Sprintf("C14/%s/%s/%s", r.Kind, aspect, r.faultKey())
-	if strings.HasPrefix(aspect, "duplicate-input/") || strings.HasPrefix(aspect, "judged-by-cited-auth-events/") {
+	if strings.HasPrefix(aspect, "duplicate-input/") || strings.HasPrefix(aspect, "judged-by-cited-auth-events/") ||
+		strings.HasPrefix(aspect, "good-event-lost/") || strings.HasPrefix(aspect, "returned-twice/") {
 		key = fmt.Sprintf("C14/%s/%s", r.Kind, aspect) // the origin is known: the other deviations of the scenario are not part of it
 	}
 	return hx.Result{OK: false, Key: key, Want: want, Got: got,
@@ -285,6 +288,13 @@ func replayChain(w *world) hx.Result {
 	prov := w.scriptedProvider(func(p *provider) {
 		_ = gmsl.VerifyEventAuthChain(context.Background(), w.pdu[r.E], p.ProvideEvents, identityQuerier)
 	})
+	if r.PV == "over" {
+		// one answer carries the whole chain below the asked events (FedVerify.tla, Answer)
+		prov.over = true
+		prov.generous = true // (checkAsked: events that came unasked need not be asked for; askmin is the spec's)
+		w.variants = append(w.variants, "provider=whole-chain-in-one-answer")
+		w.tag = "over-provider/"
+	}
 	err := gmsl.VerifyEventAuthChain(context.Background(), w.pdu[r.E], prov.ProvideEvents, identityQuerier)
 	if (err == nil) != r.OK {
 		if r.OK {
@@ -569,6 +579,67 @@ func replayLoad(w *world) hx.Result {
 	}
 	_ = sigPassed
 	return w.loadOK()
+}
+
+// ---------------------------------------------------------------------------------------------- backfill
+
+// replayBackfill: RequestBackfill over two servers that both answer with every event of the room while the caller's
+// event provider fails transiently (every call during the first server's round errors / returns nothing).  Every
+// event that passes every check in some round comes back, exactly once; no event that fails an auth check (or is
+// no valid event) in both rounds comes back.
+func replayBackfill(w *world) hx.Result {
+	r := w.r
+	ctx := context.Background()
+	order := make([]int, len(r.Events))
+	for i := range order {
+		order[i] = i + 1
+	}
+	w.rng.Shuffle(len(order), func(a, b int) { order[a], order[b] = order[b], order[a] })
+	var pdus []spec.RawJSON
+	for _, i := range order {
+		pdus = append(pdus, append(spec.RawJSON{}, w.respell(w.wire[i], r.ev(i).F != "malformed")...))
+	}
+	stateOf := func(id string) []int {
+		if i, ok := w.byID[id]; ok {
+			return r.SB[i-1]
+		}
+		return nil
+	}
+	prov := newProvider(w)
+	prov.transient = r.TR
+	br := &backfillRequester{stateProvider: &stateProvider{w: w, stateOf: stateOf}, prov: prov, pdus: pdus,
+		servers: []spec.ServerName{"hs2", "hs3"}}
+	back, berr := gmsl.RequestBackfill(ctx, "hs1", br, newKeyRing(), w.room, w.ver, []string{w.ids[len(r.Events)]}, 100, identityQuerier)
+	if berr != nil {
+		return w.fail("error", nil, fmt.Sprint(berr), "RequestBackfill failed: %v", berr)
+	}
+	if br.asked != 2 {
+		return hx.Result{OK: true, NT: fmt.Sprintf("backfill|%s|servers-asked=%d", r.Ver, br.asked)} // (limit reached: nothing to compare)
+	}
+	returned := map[int]int{}
+	for _, p := range back {
+		i, ok := w.byID[p.EventID()]
+		if !ok {
+			return w.fail("foreign-event", nil, p.EventID(), "RequestBackfill returned %s, which is no input", p.EventID())
+		}
+		returned[i]++
+	}
+	tr := "provider-" + r.TR + "-during-first-server"
+	for i := range r.Cls {
+		c1, c2 := r.Cls1[i], r.Cls[i]
+		bad := func(c string) bool { return c == "chain" || c == "rules" || c == "invalid" }
+		switch {
+		case returned[i+1] > 1:
+			return w.fail("returned-twice/"+tr, 1, returned[i+1], "RequestBackfill returned input %d %d times (two servers answered with it)", i+1, returned[i+1])
+		case (c1 == "ok" || c2 == "ok") && returned[i+1] == 0:
+			return w.fail("good-event-lost/"+tr, [][]string{r.Cls1, r.Cls}, nil,
+				"RequestBackfill did not return input %d although the copy of the %s server passes every check (classes: first round %q, second round %q; two servers answered with the same events, the event provider %s while the first answer was verified)",
+				i+1, map[bool]string{true: "first", false: "second"}[c1 == "ok"], c1, c2, r.TR)
+		case bad(c1) && bad(c2) && returned[i+1] > 0:
+			return w.fail("bad-event-returned/"+tr, [][]string{r.Cls1, r.Cls}, nil, "RequestBackfill returned input %d, whose classes are %q and %q", i+1, c1, c2)
+		}
+	}
+	return hx.Result{OK: true, NT: fmt.Sprintf("backfill|%s|%s|tr=%s", r.Ver, r.faultKey(), r.TR)}
 }
 
 func (w *world) loadOK() hx.Result {
